@@ -5,7 +5,9 @@ import (
 	"encoding/binary"
 	"encoding/json"
 	"fmt"
+	"io"
 	"os"
+	"testing/iotest"
 
 	"github.com/tormoder/fit"
 
@@ -39,10 +41,29 @@ func init() {
 			var r c04Replay
 			json.Unmarshal(raw, &r)
 			b := vx.UnHex(r.Hex)
+			if r.Kind == "chunked" {
+				mk := func() io.Reader {
+					switch {
+					case r.Bit == 0:
+						return bytes.NewReader(b)
+					case r.Bit == -2:
+						return iotest.HalfReader(&plainReader{b: b})
+					}
+					return &countingReader{b: b, chunk: r.Bit}
+				}
+				_, perr := fitmodel.Parse(b)
+				d, c := safeDecode(mk()), safeCheckIntegrity(mk(), false)
+				out := fmt.Sprintf("reads of %d bytes: Decode err=%v, CheckIntegrity err=%v; the reference parser says %v", r.Bit, d.Err, c.Err, perr)
+				if (perr == nil) != (d.Err == nil) || (perr == nil) != (c.Err == nil) {
+					return out, fmt.Errorf("verdict differs from the reference: %s", out)
+				}
+				return out, nil
+			}
 			d := safeDecode(bytes.NewReader(b))
 			c := safeCheckIntegrity(bytes.NewReader(b), false)
-			out := fmt.Sprintf("Decode err=%v panic=%q; CheckIntegrity err=%v panic=%q", d.Err, d.Panic, c.Err, c.Panic)
-			if r.Kind == "burst" && (d.Err == nil || c.Err == nil) {
+			o := callEntry("Decode+options", bytes.NewReader(b))
+			out := fmt.Sprintf("Decode err=%v panic=%q; CheckIntegrity err=%v panic=%q; Decode with all options err=%v panic=%q", d.Err, d.Panic, c.Err, c.Panic, o.Err, o.Panic)
+			if r.Kind == "burst" && (d.Err == nil || c.Err == nil || o.Err == nil || o.Panic != "") {
 				return out, fmt.Errorf("corruption accepted: %s", out)
 			}
 			return out, nil
@@ -126,6 +147,62 @@ func runC04(w *vx.W) {
 		}
 		w.Fam("encode-outputs-checked", int64(n))
 	}
+	// verdicts must not depend on how the reader chunks the data: valid files and single-bit corruptions of them
+	// through Decode, CheckIntegrity and CheckIntegrity(header only) under whole-buffer, 1-byte, 7-, 100-, 1023-,
+	// 1024-, 4096-byte and halving readers
+	{
+		files := []namedStream{sAct3, sAct3BE, sSet, sBig, s4096, s8192, sDev}
+		var k int64
+		for _, s := range files {
+			step := len(s.B)/40 + 1
+			for pos := -1; pos < len(s.B); pos += step {
+				k++
+				if !w.Mine(k) {
+					continue
+				}
+				b := append([]byte{}, s.B...)
+				corrupted := pos >= 1 && !(pos >= 4 && pos <= 7) // byte 0 (header size) and the data size field change the framing, not the content
+				if pos >= 0 && !corrupted {
+					continue
+				}
+				if corrupted {
+					b[pos] ^= 0x10
+				}
+				hdrCorrupt := corrupted && pos < int(s.B[0])
+				for _, chunk := range []int{0, 1, 7, 100, 1023, 1024, 4096, -2} {
+					mk := func() io.Reader {
+						switch {
+						case chunk == 0:
+							return bytes.NewReader(b)
+						case chunk == -2:
+							return iotest.HalfReader(&plainReader{b: b})
+						}
+						return &countingReader{b: b, chunk: chunk}
+					}
+					d := safeDecode(mk())
+					c := safeCheckIntegrity(mk(), false)
+					h := safeCheckIntegrity(mk(), true)
+					w.Eval(3)
+					w.Fam("verdicts-under-read-chunking", 1)
+					bad := ""
+					switch {
+					case d.Panic != "" || c.Panic != "" || h.Panic != "":
+						bad = "panic " + d.Panic + c.Panic + h.Panic
+					case !corrupted && (d.Err != nil || c.Err != nil || h.Err != nil):
+						bad = fmt.Sprintf("valid file rejected: Decode=%v CheckIntegrity=%v header-only=%v", d.Err, c.Err, h.Err)
+					case corrupted && (d.Err == nil || c.Err == nil):
+						bad = fmt.Sprintf("corruption at byte %d accepted: Decode=%v CheckIntegrity=%v", pos, d.Err, c.Err)
+					case corrupted && !hdrCorrupt && h.Err != nil:
+						bad = fmt.Sprintf("header-only integrity check fails although only the data is corrupted: %v", h.Err)
+					}
+					if bad != "" {
+						w.Violation("verdict-depends-on-chunking", fmt.Sprintf("%s, reads of %d bytes (0 = whole, -2 = halving): %s", s.Name, chunk, bad), c04Replay{Kind: "chunked", Stream: s.Name, Hex: vx.Hex(b), Bit: chunk})
+						break
+					}
+				}
+			}
+		}
+	}
 	// every base file must be accepted and pass integrity
 	for _, s := range bases {
 		if w.Shard == 0 {
@@ -184,6 +261,19 @@ func runC04(w *vx.W) {
 						}
 						w.Violation("corruption-accepted/"+api, fmt.Sprintf("%s: burst at bit %d (byte %d) pattern %#x length %d is accepted: Decode err=%v, CheckIntegrity err=%v", s.Name, bit, bit>>3, pat, plen, derr, cerr),
 							c04Replay{"burst", s.Name, vx.Hex(buf), bit, pat, plen, api})
+					}
+					if plen <= 2 {
+						// single- and double-bit errors once more with every decode option switched on
+						rd.Reset(buf)
+						var oerr error
+						pn3, _ := guard(func() {
+							_, oerr = fit.Decode(rd, fit.WithUnknownMessages(), fit.WithUnknownFields(), fit.WithLogger(&nullLogger{}))
+						})
+						w.Eval(1)
+						if pn3 != "" || oerr == nil {
+							w.Violation("corruption-accepted/Decode+options", fmt.Sprintf("%s: burst at bit %d pattern %#x length %d with all decode options: err=%v panic=%s", s.Name, bit, pat, plen, oerr, pn3),
+								c04Replay{"burst", s.Name, vx.Hex(buf), bit, pat, plen, "Decode+options"})
+						}
 					}
 				}
 			}
